@@ -38,10 +38,17 @@ import (
 // step (the first one: after the instance received its first resolver update).
 type lbStep struct {
 	AtNs  int64    `json:"at_ns"`
-	Op    string   `json:"op"` // connect | shutdown | newsc | publish | spec | state
+	Op    string   `json:"op"` // connect | shutdown | newsc | publish | spec | state | addrs | addrs_empty
 	SC    int      `json:"sc,omitempty"`
 	Spec  []string `json:"spec,omitempty"`
 	State int      `json:"state,omitempty"` // op=state: 1+connectivity.State to publish instead of the aggregate; 0 clears
+	// op=addrs: UpdateAddresses on SubConn SC with the addresses
+	// cfg.Addrs[Addrs[k] mod n] (duplicates and addresses that another live
+	// SubConn of the instance holds are dropped; nothing left: no call);
+	// op=addrs_empty: UpdateAddresses with an empty list. ViaCC: through
+	// balancer.ClientConn.UpdateAddresses instead of SubConn.UpdateAddresses.
+	Addrs []int `json:"addrs,omitempty"`
+	ViaCC bool  `json:"via_cc,omitempty"`
 }
 
 // lbInstCfg scripts the k-th policy instance of a run (a new instance is built
@@ -52,6 +59,34 @@ type lbInstCfg struct {
 	ShutOnClose bool     `json:"shut_on_close,omitempty"`
 	Spec        []string `json:"spec,omitempty"` // initial picker spec (see lbPicker.Pick)
 	Steps       []lbStep `json:"steps,omitempty"`
+	// HCMask: bit (k mod 8) set = the k-th SubConn the instance creates asks for
+	// client-side health checking (NewSubConnOptions.HealthCheckEnabled); only
+	// effective when lbCfg.Health is set.
+	HCMask int `json:"hc_mask,omitempty"`
+	// InitSCs > 0: SubConns are created for the first InitSCs resolver addresses
+	// only; the others stay free for newsc / addrs steps.
+	InitSCs int `json:"init_scs,omitempty"`
+}
+
+// lbHealthStep changes the status the simulated backend's health service
+// reports, AtNs after the previous step (the first: after the run's start).
+type lbHealthStep struct {
+	AtNs   int64 `json:"at_ns"`
+	Addr   int   `json:"addr,omitempty"` // 0: every address; k>0: cfg.Addrs[(k-1) mod n]
+	Status int   `json:"status"`         // see lbHealthCfg.Init
+}
+
+// lbHealthCfg switches client-side health checking on: the service config
+// carries healthCheckConfig{serviceName:"sim"} and the simulated server answers
+// /grpc.health.v1.Health/Watch according to a scripted per-address status:
+// 0 UNKNOWN, 1 SERVING, 2 NOT_SERVING, 3 SERVICE_UNKNOWN (the values of
+// grpc.health.v1.HealthCheckResponse.ServingStatus), 4: the stream ends with
+// UNIMPLEMENTED (no health service: the client treats the backend as healthy),
+// 5: the stream ends with UNAVAILABLE.
+type lbHealthCfg struct {
+	Init    []int          `json:"init,omitempty"`     // initial status of cfg.Addrs[k] = Init[k mod len]; empty: SERVING
+	DelayNs int64          `json:"delay_ns,omitempty"` // the handler waits this long before its first response on a stream
+	Steps   []lbHealthStep `json:"steps,omitempty"`
 }
 
 type lbWatchCfg struct {
@@ -80,6 +115,7 @@ type lbCfg struct {
 	Watchers []lbWatchCfg  `json:"watchers,omitempty"`
 	Cancels  []lbCancelCfg `json:"cancels,omitempty"`
 	Retry    *lbRetryCfg   `json:"retry,omitempty"`
+	Health   *lbHealthCfg  `json:"health,omitempty"`
 	// StrictHeader turns the known loss of a picker status inside
 	// ClientStream.Header() (probe picker_status_lost_in_header) into a violation.
 	StrictHeader bool `json:"strict_header,omitempty"`
@@ -149,6 +185,11 @@ type lbExt struct {
 	quiesceSeq uint64
 	noPickHdrs []uint32 // RPC ids of request HEADERS without a pick id
 	dupPickHdr []int
+
+	// health service of the simulated backends (lb_health.go)
+	hstatus []int // per cfg.Addrs index
+	hwatch  []*lbHWatch
+	hcauses []lbHCause
 }
 
 // lbCur is the extension of the run in progress (one run at a time per
@@ -203,7 +244,11 @@ func (b *lbResBuilder) Build(_ resolver.Target, cc resolver.ClientConn, _ resolv
 		as = append(as, resolver.Address{Addr: a})
 	}
 	b.x.e.Logf("lb resolver build addrs=%v", b.x.cfg.Addrs)
-	cc.UpdateState(resolver.State{Addresses: as, ServiceConfig: lbParsedSC[lbSCKey(b.x.cfg.Retry)]})
+	key := lbSCKey(b.x.cfg.Retry)
+	if b.x.cfg.Health != nil {
+		key += "+hc"
+	}
+	cc.UpdateState(resolver.State{Addresses: as, ServiceConfig: lbParsedSC[key]})
 	return lbRes{}, nil
 }
 
@@ -240,12 +285,15 @@ func lbSCKey(rc *lbRetryCfg) string {
 func lbParseServiceConfigs() {
 	parse := internal.ParseServiceConfig.(func(string) *serviceconfig.ParseResult)
 	const lb = `"loadBalancingConfig":[{"sim_lb":{}}]`
+	const hc = `,"healthCheckConfig":{"serviceName":"` + lbHealthService + `"}`
 	lbParsedSC["plain"] = parse(`{` + lb + `}`)
+	lbParsedSC["plain+hc"] = parse(`{` + lb + hc + `}`)
 	for _, a := range lbRetryAttempts {
 		for _, b := range lbRetryBackoffs {
 			sec := fmt.Sprintf("%d.%09ds", b/1e9, b%1e9)
-			js := fmt.Sprintf(`{%s,"methodConfig":[{"name":[{}],"retryPolicy":{"maxAttempts":%d,"initialBackoff":"%s","maxBackoff":"%s","backoffMultiplier":1.5,"retryableStatusCodes":["UNAVAILABLE"]}}]}`, lb, a, sec, sec)
-			lbParsedSC[fmt.Sprintf("%d/%d", a, b)] = parse(js)
+			mc := fmt.Sprintf(`"methodConfig":[{"name":[{}],"retryPolicy":{"maxAttempts":%d,"initialBackoff":"%s","maxBackoff":"%s","backoffMultiplier":1.5,"retryableStatusCodes":["UNAVAILABLE"]}}]`, a, sec, sec)
+			lbParsedSC[fmt.Sprintf("%d/%d", a, b)] = parse(`{` + lb + `,` + mc + `}`)
+			lbParsedSC[fmt.Sprintf("%d/%d+hc", a, b)] = parse(`{` + lb + `,` + mc + hc + `}`)
 		}
 	}
 	for k, v := range lbParsedSC {
@@ -255,12 +303,50 @@ func lbParseServiceConfigs() {
 	}
 }
 
-func (x *lbExt) DialOpts(w *run) []grpc.DialOption {
+// bind attaches the extension to the run (ServerOpts is the first hook).
+func (x *lbExt) bind(w *run) {
+	if x.w == w {
+		return
+	}
 	x.w, x.e, x.t0 = w, w.e, time.Now()
 	lbCur = x
 	x.scriptCtx, x.scriptCancel = context.WithCancel(context.Background())
 	x.watchCtx, x.watchCancel = context.WithCancel(context.Background())
-	return []grpc.DialOption{grpc.WithResolvers(&lbResBuilder{x})}
+	if h := x.cfg.Health; h != nil {
+		x.hstatus = make([]int, len(x.cfg.Addrs))
+		for k := range x.hstatus {
+			x.hstatus[k] = lbHealthServing
+			if len(h.Init) > 0 {
+				x.hstatus[k] = h.Init[k%len(h.Init)]
+			}
+		}
+	}
+}
+
+func (x *lbExt) ServerOpts(w *run) []grpc.ServerOption {
+	x.bind(w)
+	if x.cfg.Health == nil {
+		return nil
+	}
+	// the world's handler for everything except the health service (a later
+	// UnknownServiceHandler option replaces the world's)
+	return []grpc.ServerOption{grpc.UnknownServiceHandler(func(srv any, ss grpc.ServerStream) error {
+		if m, _ := grpc.MethodFromServerStream(ss); m == lbHealthMethod {
+			return x.healthWatch(ss)
+		}
+		return w.handler(srv, ss)
+	})}
+}
+
+func (x *lbExt) DialOpts(w *run) []grpc.DialOption {
+	x.bind(w)
+	opts := []grpc.DialOption{grpc.WithResolvers(&lbResBuilder{x})}
+	if x.cfg.Health != nil {
+		// the health-check stream marshals protobuf messages; everything else
+		// stays on the world's raw codec
+		opts = append(opts, grpc.WithDefaultCallOptions(grpc.ForceCodecV2(lbCodec{})))
+	}
+	return opts
 }
 
 func (x *lbExt) Start(w *run) {
@@ -283,6 +369,9 @@ func (x *lbExt) Start(w *run) {
 		}
 	}
 	go x.stuckGuard()
+	if x.cfg.Health != nil && len(x.cfg.Health.Steps) > 0 {
+		go x.healthScript()
+	}
 	for i := range x.cfg.Watchers {
 		if i >= 4 {
 			break
